@@ -15,8 +15,8 @@ import (
 )
 
 type streamPlan struct {
-	name   string
-	quick  int
+	name     string
+	quick    int
 	thorough int
 }
 
@@ -113,6 +113,19 @@ func checkMain(args []string) int {
 	st := newStats()
 	t0 := time.Now()
 	out := checkOut{Property: prop, Tier: tier, Seed: cfg.seed, Spec: spec, Streams: map[string]int{}}
+	if spec {
+		// the search after a broken proof obligation or tie: whatever the property, also walk the streams that exercise the
+		// regenerated tables directly (every unquoted-identifier shape, the token-sequence enumeration, function signatures)
+		have := map[string]bool{}
+		for _, p := range plan {
+			have[p.name] = true
+		}
+		for _, extra := range []streamPlan{{"unquoted", unquotedCount(), unquotedCount()}, {"syntax-enum", syntaxEnumCount(3), syntaxEnumCount(3)}, {"fnmatrix", matrixCount(2), matrixCount(2)}} {
+			if !have[extra.name] {
+				plan = append(plan, extra)
+			}
+		}
+	}
 	for _, p := range plan {
 		n := p.quick
 		if tier == "thorough" {
